@@ -452,7 +452,8 @@ def r3_reply_paths(run, w):
       for (it, tg, body, owner) in iterations(fn.node):
         if r.norm(it) == "self." + a:
           ok = ok or any(endswith(fn.name(c), "get_action_repr") and
-                         any(isinstance(x, ast.Name) and x.id in _names(tg) for x in c.args)
+                         any(isinstance(x, ast.Name) and x.id in _names(tg)
+                             for x in list(c.args) + [k.value for k in c.keywords])
                          for b in body for c in calls_in(b))
       run.ob(R3, q, "[... get_action_repr(a) ... for a in self.%s]" % a,
              "actions of the %s list are encoded before leaving the sandbox" % a, ok, fi=fn.fi)
